@@ -3,6 +3,7 @@ package main
 import (
 	"fmt"
 	"sort"
+	"time"
 
 	"github.com/hashicorp/raft"
 )
@@ -724,6 +725,65 @@ func init() {
 					}
 				}),
 				stepDo("apply-final", whenSettled, func(w *World) { w.apply(w.leader(), 0) }),
+			}}
+	})
+}
+
+func init() {
+	// even number of voters: a majority of 4 is 3
+	regScenario("write4", func() *Scenario {
+		sc := scenarioByName("write3")
+		sc.Nodes = voters(4)
+		return sc
+	})
+	regScenario("crash4", func() *Scenario {
+		sc := scenarioByName("crash3")
+		sc.Nodes = voters(4)
+		sc.Horizon = 500
+		return sc
+	})
+	// automatic snapshots (threshold/interval) on every server, compaction with one trailing entry
+	regScenario("autosnap3", func() *Scenario {
+		return &Scenario{Nodes: voters(3), Devs: DevAll, Horizon: 700, Goal: goalConverged, AutoRestart: true,
+			Conf: func(i int, c *raft.Config) {
+				c.SnapshotThreshold = 2
+				c.SnapshotInterval = 30 * time.Millisecond
+				c.TrailingLogs = 1
+				c.MaxAppendEntries = 2
+			},
+			Steps: []Step{
+				stepApplyLeader("apply1"), stepApplyLeader("apply2"), stepApplyLeader("apply3"),
+				stepDo("isolate-follower", whenSettled, func(w *World) { f := w.aFollower(); w.vals["iso"] = f.id; w.isolate(f.id, true) }),
+				stepApplyLeader("apply4"), stepApplyLeader("apply5"), stepApplyLeader("apply6"),
+				stepDo("wait-for-leader-snapshot+heal", func(w *World) bool {
+					l := w.stableLeader()
+					if l == nil || !w.netIdle() {
+						return false
+					}
+					s := l.snaps.Newest()
+					return s != nil && s.meta.Index >= 6
+				}, func(w *World) { w.isolate(w.vals["iso"], false) }),
+				stepDo("apply7", whenSettled, func(w *World) { w.apply(w.leader(), 0) }),
+			}}
+	})
+	// the leader removes itself with ShutdownOnRemove
+	regScenario("member-sor", func() *Scenario {
+		return &Scenario{Nodes: voters(3), Devs: DevAll, Horizon: 600, AutoRestart: false,
+			Conf: func(i int, c *raft.Config) { c.ShutdownOnRemove = true },
+			Goal: func(w *World) bool {
+				if !w.scriptDone() || !w.callsDone() {
+					return false
+				}
+				l := w.stableLeader()
+				return l != nil && l.id != w.vals["removed"] && l.r.CommitIndex() == l.r.LastIndex()
+			},
+			Steps: []Step{
+				stepApplyLeader("apply1"),
+				stepDo("leader-removes-itself", whenSettled, func(w *World) { l := w.leader(); w.vals["removed"] = l.id; w.remove(l, l.id, 0) }),
+				stepDo("apply-on-new-leader", func(w *World) bool {
+					l := w.stableLeader()
+					return l != nil && l.id != w.vals["removed"] && w.netIdle()
+				}, func(w *World) { w.apply(w.leader(), 0) }),
 			}}
 	})
 }
